@@ -44,8 +44,20 @@ func genC08(seed uint64, run int, tier string) Scenario {
 			n = between(r, 9, 14)
 		}
 	}
+	long := run%40 == 7
+	if long {
+		// a long session: far more than a hundred requests after an early timeout with a late,
+		// never collected reply (message-ids travel a long way from the stale one)
+		n = between(r, 70, 150)
+	}
 	for i := 0; i < n; i++ {
 		mode := pick(r, "now", "now", "now", "late", "never")
+		if long {
+			mode = "now"
+			if i < 3 && r.IntN(2) == 0 || i == 0 {
+				mode = "late"
+			}
+		}
 		rep := peer.NCReply{Mode: mode, Payload: fmt.Sprintf(`<rpc-reply xmlns="urn:ietf:params:xml:ns:netconf:base:1.0" message-id="{MID}"><data><token>reply-%d-%s</token><descr>%s</descr></data></rpc-reply>`, i, word(r, lower, 4, 8), word(r, lower+"  \n", 0, 24))}
 		if mode == "late" {
 			rep.DelayUS = sc.TimeoutOpsUS * int64(between(r, 15, 30)) / 10
